@@ -130,3 +130,29 @@ fn c15_k_densify_linestring_max2() { body_densify_linestring(2.0); }
 fn c15_k_densify_linestring_max4() { body_densify_linestring(4.0); }
 #[cfg(kani)] #[kani::proof] #[kani::unwind(8)]
 fn c15_k_densify_linestring_max16() { body_densify_linestring(16.0); }
+
+/// Line::line_locate_point: axis-parallel line on the lattice, any lattice query point: the clamped projection
+/// ratio (exact: the divisions are by the segment length); round trip with interpolation at the quarter points;
+/// scale-free: the same answer for the line scaled by 2^-40 (a segment of length ~1e-12 is still a segment)
+#[cfg(kani)]
+#[kani::proof]
+fn c15_k_line_locate_point() {
+    use crate::line_locate_point::LineLocatePoint;
+    let (a, px, py) = (small_int(), small_int(), small_int());
+    let len: i32 = { let v: u8 = kani::any(); kani::assume(v == 1 || v == 2 || v == 4 || v == 8); v as i32 };
+    let flip: bool = kani::any();
+    let b = if flip { a - len } else { a + len };
+    let l = Line::new(Coord { x: a as f64, y: 0.0 }, Coord { x: b as f64, y: 0.0 });
+    let got = l.line_locate_point(&Point::new(px as f64, py as f64));
+    // projection parameter t = (p - a).(b - a) / |b - a|^2, clamped to [0, 1]  (exact: len is a power of two)
+    let t_num = (px - a) * (b - a);
+    let want = if t_num <= 0 { 0.0 } else if t_num >= len * len { 1.0 } else { t_num as f64 / (len * len) as f64 };
+    assert!(got == Some(want));
+    // zero-length line: 0
+    let z = Line::new(Coord { x: a as f64, y: 1.0 }, Coord { x: a as f64, y: 1.0 });
+    assert!(z.line_locate_point(&Point::new(px as f64, py as f64)) == Some(0.0));
+    // the same configuration scaled by 2^-40
+    let k = 1.0 / 1099511627776.0;
+    let ls = Line::new(Coord { x: a as f64 * k, y: 0.0 }, Coord { x: b as f64 * k, y: 0.0 });
+    assert!(ls.line_locate_point(&Point::new(px as f64 * k, py as f64 * k)) == Some(want));
+}
